@@ -1001,8 +1001,14 @@ pub fn render(rng: &mut Rng, cfg: &GenCfg) -> String {
             let m = g.m();
             g.line(0, &format!("~ {v} = LIST_ALL({}) + LIST_ALL({})", shared[0], shared[1]));
             g.line(0, &format!("{m} tie all={{{v}}} draw={{LIST_RANDOM({v})}}"));
-            g.line(0, &format!("~ {v} = LIST_RANDOM({v})"));
-            g.line(0, &format!("{m} tie kept={{{v}}} of={{LIST_ALL({v})}} inv={{LIST_INVERT({v})}}"));
+            if g.rng.chance(1, 2) {
+                // emptied while it holds items of both lists: the empty value remembers two origins
+                g.line(0, &format!("~ {v} = ()"));
+                g.line(0, &format!("{m} tie emptied of={{LIST_ALL({v})}} inv={{LIST_INVERT({v})}}"));
+            } else {
+                g.line(0, &format!("~ {v} = LIST_RANDOM({v})"));
+                g.line(0, &format!("{m} tie kept={{{v}}} of={{LIST_ALL({v})}} inv={{LIST_INVERT({v})}}"));
+            }
         }
     }
     g.line(0, &format!("-> {}", knot_names[0]));
